@@ -65,9 +65,14 @@ def install():
                 setattr(cls, "pack", _wrap(fn))
                 COUNT["classes"] += 1
     _INSTALLED = True
+    from spverif.san import argform
+    argform.install()          # the two hostile-caller sanitizers are armed together
     return COUNT["classes"]
 
 
 def report(ctx):
+    from spverif.san import argform
+    if argform.COUNT["entry_points"]:
+        argform.report(ctx)
     ctx.extra["hostile_caller_scribbled_pack_results"] = COUNT["scribbled"]
     ctx.extra["hostile_caller_wrapped_classes"] = COUNT["classes"]
